@@ -30,7 +30,10 @@ def run(p: Program, rep: Report, tier: str) -> None:
         "wait of the closing consumer on a THREAD relay is only legal if every blocking put of the relay on the bounded queue "
         "is non-blocking/timed, or the consumer keeps draining until the relay is done, or the queue is unbounded; on asyncio "
         "the join is legal when it is reached only after cancel() returned False (task already finished). R6.4 the hand-off "
-        "is a FIFO queue with one producer loop and one consumer loop in which every dequeued non-sentinel item is yielded."
+        "is a FIFO queue with one producer loop and one consumer loop in which every dequeued non-sentinel item is yielded. R6.5 no "
+        "handler around an ASGI send() (direct or through the emit helpers) can swallow OSError - the server's disconnect signal - so the "
+        "streaming loop ends at the producer's next step. R6.6 the 'client went away' flag is set only from a received http.disconnect. "
+        "R6.7 an item pulled from the user's iterator is always enqueued (no timed put that gives up and pulls the next item)."
     )
     rep.assume("concurrent.futures.Future.cancel() of a running thread future returns False; asyncio.Task.cancel() of a pending task returns True and interrupts a blocked `await q.put`")
     rep.assume("`yield from it` forwards close()/throw() to `it` (PEP 380)")
@@ -81,7 +84,8 @@ def run(p: Program, rep: Report, tier: str) -> None:
             rep.ok("R6.1", f"{fn.fq}: the background handle is cancelled/awaited on all {len(paths)} exits (incl. exceptions and generator close)")
         # the settling call sits in a finally block
         fins = _finally_blocks(fn)
-        setl = [c for c in calls_in(fn) if isinstance(c.func, ast.Attribute) and c.func.attr in ("cancel", "exception", "result") and ast.unparse(c.func.value).endswith("future")]
+        hnames = _handle_names(fn)
+        setl = [c for c in calls_in(fn) if isinstance(c.func, ast.Attribute) and c.func.attr in ("cancel", "exception", "result") and isinstance(c.func.value, ast.Name) and c.func.value.id in hnames]
         if setl and all(any(_in(c, t.finalbody) for t in fins) for c in setl):
             rep.ok("R6.1", f"{fn.fq}: the handle is settled inside a finally block")
         elif setl:
@@ -226,19 +230,23 @@ def run(p: Program, rep: Report, tier: str) -> None:
                               f"{side}: the relay's finally performs a blocking {qname}.put(None) on the bounded queue, but the consumer cancels/awaits the relay without emptying the queue first: "
                               "with the producer one item ahead the sentinel put blocks forever, the relay task/thread never finishes and the user's generator is never closed")
         # stop flag
-        flags = [n for n in ast.walk(ast.Module(body=[s for t in fins for s in t.finalbody], type_ignores=[])) if isinstance(n, ast.Assign) and ast.unparse(n).replace(" ", "") == "should_stop=True"]
-        loop_tests = [ast.unparse(n.test) for n in ast.walk(push.node) if isinstance(n, ast.While)]
-        if flags and any("should_stop" in t for t in loop_tests):
+        nonlocals = {nm for n in ast.walk(push.node) if isinstance(n, ast.Nonlocal) for nm in n.names}
+        tested = {x.id for n in ast.walk(push.node) if isinstance(n, ast.While) for x in ast.walk(n.test) if isinstance(x, ast.Name)} & nonlocals
+        flags = [n for n in ast.walk(ast.Module(body=[s for t in fins for s in t.finalbody], type_ignores=[])) if isinstance(n, ast.Assign) and len(n.targets) == 1 and isinstance(n.targets[0], ast.Name)
+                 and n.targets[0].id in tested and isinstance(n.value, ast.Constant) and n.value.value is True]
+        if flags:
             rep.ok("R6.3", f"{side}: the consumer raises the stop flag in its finally and the relay loop tests it before every step")
         else:
             rep.violation("R6.3", construct(rs, text="stop flag"), where(rs), f"{side}: the relay is not asked to stop (flag not set in finally or not tested by the relay loop)")
         # R6.4 single producer loop / consumer yields every item
-        loops_with_put = [n for n in ast.walk(push.node) if isinstance(n, ast.While) and any(isinstance(c, ast.Call) and isinstance(c.func, ast.Attribute) and c.func.attr == "put" for c in ast.walk(n))]
         item_puts = [c for c in puts if not (c.args and isinstance(c.args[0], ast.Constant) and c.args[0].value is None)]
-        if len(loops_with_put) == 1 and len(item_puts) == 1:
+        from ..common import parents as _parents
+        loops_with_put = {id(next((q_ for q_ in _parents(c) if isinstance(q_, (ast.While, ast.For, ast.AsyncFor))), None)) for c in item_puts}
+        pulls = [c for c in calls_in(push, deep=True) if (isinstance(c.func, ast.Name) and c.func.id in ("next", "anext")) or (isinstance(c.func, ast.Attribute) and c.func.attr in ("__next__", "__anext__"))]
+        if len(loops_with_put) == 1 and len(item_puts) == 1 and len(pulls) == 1:
             rep.ok("R6.4", f"{side}: one producer loop with one put per item")
         else:
-            rep.violation("R6.4", construct(push, text=f"{len(item_puts)} item puts in {len(loops_with_put)} loops"), where(push), f"{side}: items are handed off from more than one place (order/duplication not guaranteed)")
+            rep.violation("R6.4", construct(push, text=f"{len(item_puts)} item puts / {len(pulls)} pulls"), where(push), f"{side}: items are pulled or handed off at more than one place (order/duplication not guaranteed)")
         gets = [n for n in ast.walk(rs.node) if isinstance(n, ast.Assign) and isinstance(n.targets[0], ast.Name) and f"{qname}.get(" in ast.unparse(n.value) and not any(_in(n, t.finalbody) for t in fins)]
         if len(gets) == 1:
             ev = gets[0].targets[0].id
@@ -254,6 +262,33 @@ def run(p: Program, rep: Report, tier: str) -> None:
             rep.violation("R6.4", construct(rs, text=f"{len(gets)} dequeue sites"), where(rs), f"{side}: events are dequeued at {len(gets)} places outside the final drain")
     rep.require_instances("R6.3", 4)
     rep.require_instances("R6.4", 6)
+
+    # ---------------------------------------------------------------- R6.5 - R6.7 shared streaming rules
+    from .stream_common import closed_flag_provenance, relay_put_never_drops, send_failures_propagate
+
+    for rule, fnc, least in (("R6.5", send_failures_propagate, 10), ("R6.6", closed_flag_provenance, 2), ("R6.7", relay_put_never_drops, 2)):
+        for kind, fn_, node, cons, msg in fnc(p):
+            if kind == "ok":
+                rep.analysed(fn_.fq)
+                rep.ok(rule, msg)
+            elif kind == "undecided":
+                rep.undecide(rule, msg)
+            else:
+                rep.violation(rule, construct(fn_, text=cons), where(fn_, node), msg)
+        rep.require_instances(rule, least)
+
+
+def _handle_names(fn: FuncInfo) -> Set[str]:
+    """locals bound to a background handle: x = asyncio.ensure_future(...) / x = <pool>.submit(...)"""
+    out = set()
+    for n in walk_shallow(fn.node):
+        if isinstance(n, (ast.Assign, ast.AnnAssign)) and isinstance(n.value, ast.Call):
+            f = n.value.func
+            if (isinstance(f, ast.Attribute) and f.attr in ("ensure_future", "create_task", "submit")) or (isinstance(f, ast.Name) and f.id in ("ensure_future", "create_task")):
+                for t in (n.targets if isinstance(n, ast.Assign) else [n.target]):
+                    if isinstance(t, ast.Name):
+                        out.add(t.id)
+    return out
 
 
 def _guards(node: ast.AST, fn: FuncInfo):
